@@ -152,9 +152,8 @@ def writeEpilogue (s : State) (plen bytesWritten : Nat) : State × Ev × (Nat ×
   if bytesWritten == plen then (s, {}, (bytesWritten, .none))
   else if s.shutdown then (s, {}, (bytesWritten, .shutdown))
   else if s.resetErr.isSome then
-    let s := { s with cancellationFlagged := true }
-    let (s, c) := isNewlyCompleted s
-    (s, evDone c, (bytesWritten, resetErrOf s))
+    let r := isNewlyCompleted { s with cancellationFlagged := true }
+    (r.1, evDone r.2, (bytesWritten, resetErrOf s))
   else (s, {}, (bytesWritten, .none))
 
 /-- one pass of the `for` loop of `write`; `none` = the call parks on `writeChan` again -/
@@ -185,9 +184,8 @@ deriving Repr, DecidableEq, Inhabited
 def writeCall (s : State) (p : Bytes) : State × Ev × WriteRes :=
   if s.pending.isSome then (s, {}, .skip)
   else if s.resetErr.isSome then
-    let s := { s with cancellationFlagged := true }
-    let (s, c) := isNewlyCompleted s
-    (s, evDone c, .ret 0 (resetErrOf s))
+    let r := isNewlyCompleted { s with cancellationFlagged := true }
+    (r.1, evDone r.2, .ret 0 (resetErrOf s))
   else if s.shutdown then (s, {}, .ret 0 .shutdown)
   else if s.finishedWriting then (s, {}, .ret 0 .closed)
   else if p.isEmpty then (s, {}, .ret 0 .none)
@@ -213,9 +211,9 @@ def close (s : State) : State × Ev × Err :=
     let s := { s with finishedWriting := true }
     let cancelled := s.resetErr.isSome
     let s := if cancelled then { s with cancellationFlagged := true } else s
-    let (s, c) := isNewlyCompleted s
-    if cancelled then (s, evDone c, .closeCanceled)
-    else (s, (evDone c).add { hasData := 1 }, .none)
+    let r := isNewlyCompleted s
+    if cancelled then (r.1, evDone r.2, .closeCanceled)
+    else (r.1, (evDone r.2).add { hasData := 1 }, .none)
 
 /-- `SetReliableBoundary` -/
 def setReliableBoundary (s : State) : State :=
@@ -338,8 +336,8 @@ def acked (s : State) (i : Nat) : State × Ev × AckRes :=
       let s := { s with numOutstanding := s.numOutstanding - 1 }
       if s.numOutstanding < 0 then ({ s with dead := true }, {}, .panic)
       else
-        let (s, c) := isNewlyCompleted s
-        (s, evDone c, .ok)
+        let r := isNewlyCompleted s
+        (r.1, evDone r.2, .ok)
 
 /-- `sendStreamAckHandler.OnLost` -/
 def lost (s : State) (i : Nat) : State × Ev × AckRes :=
@@ -354,53 +352,49 @@ def lost (s : State) (i : Nat) : State × Ev × AckRes :=
       else
         let ro := s.reliableOffset
         if s.resetErr.isSome && ro > 0 && f.offset ≥ ro then
-          let (s, c) := isNewlyCompleted s
-          (s, evDone c, .ok)
+          let r := isNewlyCompleted s
+          (r.1, evDone r.2, .ok)
         else
           let f := if s.resetErr.isSome && ro > 0 && f.offset + f.data.length > ro
                    then { f with data := f.data.take (ro - f.offset) } else f
           let f := { f with dataLenPresent := true }
           ({ s with retransQ := s.retransQ ++ [f] }, { hasData := 1 }, .ok)
 
+/-- `CancelWrite` with a reliable offset: the part of a frame beyond `ro` is dropped -/
+def trimFrame (ro : Nat) (f : Frame) : Option Frame :=
+  if f.offset ≥ ro then none
+  else if f.offset + f.data.length > ro then some { f with data := f.data.take (ro - f.offset) }
+  else some f
+
 /-- `CancelWrite` -/
 def cancelWrite (s : State) (code : Nat) : State × Ev :=
   if s.shutdown then (s, {})
+  else if s.resetErr.isSome then
+    let r := isNewlyCompleted { s with cancellationFlagged := true }
+    (r.1, evDone r.2)
   else
-    let s := { s with cancellationFlagged := true }
-    if s.resetErr.isSome then
-      let (s, c) := isNewlyCompleted s
-      (s, evDone c)
-    else
-      let s := { s with resetErr := some (code, false) }
-      let ro := s.reliableOffset
-      let s := if ro == 0 then returnFramesToPool { s with numOutstanding := 0 } else s
-      let s := { s with queuedReset := some { finalSize := max s.writeOffset ro, code := code, reliableSize := ro } }
-      let s :=
-        if ro > 0 then
-          let nf := match s.nextFrame with
-            | none => none
-            | some f =>
-              if f.offset ≥ ro then none
-              else if f.offset + f.data.length > ro then some { f with data := f.data.take (ro - f.offset) }
-              else some f
-          let q := s.retransQ.filterMap fun f =>
-            if f.offset ≥ ro then none
-            else if f.offset + f.data.length ≤ ro then some f
-            else some { f with data := f.data.take (ro - f.offset) }
-          { s with nextFrame := nf, retransQ := q }
-        else s
-      ({ s with signal := true }, { hasCtrl := 1 })
+    let ro := s.reliableOffset
+    -- ro == 0: numOutstandingFrames = 0 and returnFramesToPool(); ro > 0: trim nextFrame and the queue
+    ({ s with cancellationFlagged := true,
+              resetErr := some (code, false),
+              numOutstanding := if ro == 0 then 0 else s.numOutstanding,
+              retransQ := if ro == 0 then [] else s.retransQ.filterMap (trimFrame ro),
+              nextFrame := if ro == 0 then none else s.nextFrame.bind (trimFrame ro),
+              queuedReset := some { finalSize := max s.writeOffset ro, code := code, reliableSize := ro },
+              signal := true },
+     { hasCtrl := 1 })
 
 /-- `handleStopSendingFrame` -/
 def stopSending (s : State) (code : Nat) : State × Ev :=
   if s.shutdown then (s, {})
   else if s.resetErr.isSome && s.reliableOffset == 0 then (s, {})
   else
-    let s := returnFramesToPool { s with reliableSize := 0, numOutstanding := 0 }
-    let s := if s.resetErr.isNone then { s with resetErr := some (code, true) } else s
-    let c := match s.resetErr with | some (c, _) => c | none => code
-    let s := { s with queuedReset := some { finalSize := s.writeOffset, code := c, reliableSize := 0 } }
-    ({ s with signal := true }, { hasCtrl := 1 })
+    let err : Nat × Bool := match s.resetErr with | some e => e | none => (code, true)
+    ({ s with reliableSize := 0, numOutstanding := 0, retransQ := [], nextFrame := none,
+              resetErr := some err,
+              queuedReset := some { finalSize := s.writeOffset, code := err.1, reliableSize := 0 },
+              signal := true },
+     { hasCtrl := 1 })
 
 /-- `getControlFrame` -/
 def getControlFrame (s : State) : State × Option ResetFrame :=
@@ -415,8 +409,8 @@ def resetAcked (s : State) (f : ResetFrame) : State × Ev × AckRes :=
     let s := { s with numOutstanding := s.numOutstanding - 1 }
     if s.numOutstanding < 0 then ({ s with dead := true }, {}, .panic)
     else
-      let (s, c) := isNewlyCompleted s
-      (s, evDone c, .ok)
+      let r := isNewlyCompleted s
+      (r.1, evDone r.2, .ok)
 
 /-- `sendStreamResetStreamHandler.OnLost` -/
 def resetLost (s : State) (f : ResetFrame) : State × Ev :=
@@ -425,7 +419,8 @@ def resetLost (s : State) (f : ResetFrame) : State × Ev :=
 
 /-- `closeForShutdown` -/
 def shutdownStep (s : State) : State :=
-  let s := if !s.shutdown && !s.finishedWriting then returnFramesToPool { s with shutdown := true } else s
-  { s with signal := true }
+  if !s.shutdown && !s.finishedWriting then
+    { s with shutdown := true, retransQ := [], nextFrame := none, signal := true }
+  else { s with signal := true }
 
 end Uquic.Model.Stream.Send
